@@ -81,13 +81,13 @@ Fixpoint norm (m : list N) : list N :=
   end.
 
 (* ---------- IO.recv_reply ---------- *)
-(* reply_line_pattern = ((\d\d\d)([ \t-])(.*?))\r?\n  applied to one raw line
+(* reply_line_pattern = (([1-5]\d\d)([ \t-])(.*?))\r?\n  applied to one raw line
    (LF already removed) *)
 Definition is_sep (b : N) : bool := (b =? 32) || (b =? 9) || (b =? 45).
 Definition parse_reply_line (raw : bytes) : option (bytes * N * bytes) :=
   match strip_cr raw with
   | d1 :: d2 :: d3 :: s :: txt =>
-      if is_digit d1 && is_digit d2 && is_digit d3 && is_sep s
+      if ((49 <=? d1) && (d1 <=? 53)) && is_digit d2 && is_digit d3 && is_sep s
       then Some ([d1; d2; d3], s, txt) else None
   | _ => None
   end.
